@@ -67,6 +67,12 @@ func ownTrackedD(t types.Type, d int) bool {
 			if ownTrackedD(u.Field(i).Type(), d+1) {
 				return true
 			}
+			// a struct shaped like zed.Value (agg.Any is one): base *byte
+			if p, ok := u.Field(i).Type().(*types.Pointer); ok && u.Field(i).Name() == "base" {
+				if b, ok := p.Elem().(*types.Basic); ok && b.Kind() == types.Byte {
+					return true
+				}
+			}
 		}
 	case *types.Tuple:
 		for i := 0; i < u.Len(); i++ {
@@ -166,7 +172,11 @@ func (e *ownEngine) run(fn *ssa.Function, sources []ssa.Value, path []string, de
 		for _, r := range *refs {
 			switch x := r.(type) {
 			case *ssa.DebugRef, *ssa.If, *ssa.BinOp, *ssa.Range, *ssa.RunDefers:
-			case *ssa.Phi, *ssa.ChangeType, *ssa.MakeInterface, *ssa.ChangeInterface, *ssa.Slice, *ssa.Field, *ssa.FieldAddr, *ssa.IndexAddr, *ssa.Index, *ssa.TypeAssert, *ssa.Extract, *ssa.Lookup, *ssa.Next:
+			case *ssa.Phi:
+				if !phiOnlyNil(x, v) {
+					visit(x)
+				}
+			case *ssa.ChangeType, *ssa.MakeInterface, *ssa.ChangeInterface, *ssa.Slice, *ssa.Field, *ssa.FieldAddr, *ssa.IndexAddr, *ssa.Index, *ssa.TypeAssert, *ssa.Extract, *ssa.Lookup, *ssa.Next:
 				if val, ok := r.(ssa.Value); ok && (ownTracked(val.Type()) || isAddrOfTracked(val)) {
 					visit(val)
 				}
@@ -352,4 +362,35 @@ func describeAddr(v ssa.Value) string {
 		return x.Name()
 	}
 	return "field"
+}
+
+// phiOnlyNil: every edge on which v enters the phi is one where v is known to be nil
+// (the false edge of `v != nil` / true edge of `v == nil`).
+func phiOnlyNil(phi *ssa.Phi, v ssa.Value) bool {
+	any := false
+	for i, e := range phi.Edges {
+		if e != v {
+			continue
+		}
+		any = true
+		pred := phi.Block().Preds[i]
+		iff, ok := pred.Instrs[len(pred.Instrs)-1].(*ssa.If)
+		if !ok {
+			return false
+		}
+		cmp, ok := iff.Cond.(*ssa.BinOp)
+		if !ok || !((cmp.X == v && isNilConst(cmp.Y)) || (cmp.Y == v && isNilConst(cmp.X))) {
+			return false
+		}
+		nilSucc := 1
+		if cmp.Op == token.EQL {
+			nilSucc = 0
+		} else if cmp.Op != token.NEQ {
+			return false
+		}
+		if pred.Succs[nilSucc] != phi.Block() || pred.Succs[1-nilSucc] == phi.Block() {
+			return false
+		}
+	}
+	return any
 }
